@@ -78,6 +78,7 @@ def decode_cfg(data):
     second = {"container": dec.pick(REPARSE_CONTEXTS), "scripting": bool(dec.below(2))}
     # output encoding (None = str) and the meta-charset filter that is on by default with it; popped before the options reach HTMLSerializer
     second["reuse"] = dec.below(4) == 0
+    first["namespace"] = dec.below(5) != 0
     opts["_encoding"] = dec.pick([None, None, "utf-8", "ascii", "koi8-r"])
     opts["_inject"] = bool(dec.below(3))
     return opts, first, second
@@ -175,7 +176,7 @@ def check_case(case):
     inject = bool(opts.pop("_inject", False) and enc)
     lists = c09.default_lists()
     try:
-        tree, p = h5.parse(text, builder=first["walker"], container=first["container"], scripting=first["scripting"], full_tree=True)
+        tree, p = h5.parse(text, builder=first["walker"], container=first["container"], scripting=first["scripting"], full_tree=True, namespace=bool(first.get("namespace", True)))
         toks = list(h5.walk(tree, first["walker"]))
     except Exception as e:
         return Verdict("excluded", finding="parse/walk raised %s (C03/C11's subject)" % type(e).__name__)
@@ -269,7 +270,7 @@ def shards(tier):
 
 def run_shard(desc, seed, tier):
     acc = Acc()
-    strat = st.tuples(sized_binary(6, 100), st.binary(min_size=19, max_size=19))
+    strat = st.tuples(sized_binary(6, 100), st.binary(min_size=20, max_size=20))
 
     def fn(x):
         data, cfg = x
